@@ -118,9 +118,10 @@ PROPERTIES = {
                 "exported state == both executor queries. Every probe runs on S and on S with every action pause removed: payload "
                 "containing a paused action => error ack and empty ledger delta; otherwise identical ack and ledger delta. "
                 "Non-trivial = a probe executed while >= 1 action is paused; distinct by (paused set, probe).",
-        "assumptions": COMMON_ASSUMPTIONS + ["PROD world has the fee controller only; the swap half is checked in the LAB world (C06 tests) when built"],
+        "assumptions": COMMON_ASSUMPTIONS + ["TestC09Lab repeats the check in the LAB world where a second (denomination-changing) action controller is registered: pausing one action leaves payloads with only the other unaffected, and no call of a paused action is recorded"],
         "tests": [
             {"test": "TestC09History", "quick": 300, "thorough": 40000},
+            {"test": "TestC09Lab", "quick": 250, "thorough": 30000},
             {"test": "TestC09RealTransactions", "quick": 40, "thorough": 1600},
         ],
     },
@@ -155,7 +156,10 @@ PROPERTIES = {
                 "Non-trivial = a history with >= 2 successful transfers on >= 2 statistics keys and >= 1 refused transfer; "
                 "distinct by history.",
         "assumptions": COMMON_ASSUMPTIONS + ["stated domain bound: cumulative amount per statistics key below 2^256 (single amounts capped at 2^248)"],
-        "tests": [{"test": "TestC12History", "quick": 400, "thorough": 40000}],
+        "tests": [
+            {"test": "TestC12History", "quick": 400, "thorough": 40000},
+            {"test": "TestC12Lab", "quick": 300, "thorough": 30000},
+        ],
     },
     "C15": {
         "level": "exploration",
